@@ -133,6 +133,9 @@ func runC01(c *Ctx) {
 	c.r0148(pk, "R01.48")
 	c.r0149(pk)
 	c.r0150(pk)
+	c.r0151(pk, "R01.51")
+	c.alsoUnder(map[string]string{"R13.1": "R01.52"}, func(construct string) bool { return strings.Contains(construct, "js.") || strings.HasPrefix(construct, "floor/") }, func() { c.r131() })
+	c.r0153(pk)
 	c.alsoUnder(map[string]string{"R09.22": "R01.36", "R09.23": "R01.37", "R09.24": "R01.42", "R09.25": "R01.43"}, nil, func() { c.r0922(pk); c.r0923(pk); c.r0924(pk); c.r0925(pk) })
 }
 
@@ -1473,7 +1476,16 @@ func (c *Ctx) r015(pk *packages.Package) {
 				for i, side := range []ast.Expr{b.X, b.Y} {
 					other := []ast.Expr{b.Y, b.X}[i]
 					if ty, f := fieldOf(info, side); ty == pjs+".Var" && f == "Decl" {
-						if id := rootIdent(side); id != nil && info.Uses[id] == vobj && usesObj(info, other, pjs+".NoDecl") {
+						id := rootIdent(side)
+						// the declaration may be asked of the variable the use is linked to: f(v).Decl with f from *js.Var to *js.Var
+						if sel, ok := ast.Unparen(side).(*ast.SelectorExpr); ok {
+							if ce, ok := ast.Unparen(sel.X).(*ast.CallExpr); ok && len(ce.Args) == 1 {
+								if t := info.TypeOf(ce); t != nil && strings.HasSuffix(t.String(), pjs+".Var") {
+									id = rootIdent(ce.Args[0])
+								}
+							}
+						}
+						if id != nil && info.Uses[id] == vobj && usesObj(info, other, pjs+".NoDecl") {
 							return true
 						}
 					}
